@@ -685,6 +685,7 @@ func (p *parser) blockStatement(symbols ast.SymbolTable) ast.Statement {
 	}
 	p.setScope(symbols)
 	for p.peek().Indent >= indent && !p.atEnd() {
+		verifTrace(p, "block", p.cur, int(indent))
 		if stmt := p.checkedDeclaration(); stmt != nil {
 			statements = append(statements, stmt)
 		}
